@@ -149,6 +149,27 @@ static void fields_data(mjData* d) {
       f->count += (w ? 3 : 1) * num;
     }
   }
+  // constraint Jacobian: dense models use the first nefc*nv entries of efc_J, sparse models the entries the row
+  // descriptors designate; the rest of the (over-)allocation is never written
+  {
+    Field* fj = findF("efc_J"); Field* fc = findF("efc_J_colind");
+    long nJ = d->nJ, nefc = d->nefc, nv = m->nv;
+    if (fj && fj->nseg && nJ > 0 && nefc >= 0) {
+      free(fj->seg); fj->seg = NULL; fj->nseg = 0; fj->count = 0;
+      if (fc) { free(fc->seg); fc->seg = NULL; fc->nseg = 0; fc->count = 0; }
+      if (!mj_isSparse(m)) {
+        long n = nefc * nv; if (n > nJ) n = nJ;
+        if (n > 0) { addSeg(fj, d->efc_J, 8 * (size_t)n); fj->count = n; }
+      } else if (d->efc_J_rowadr && d->efc_J_rownnz) {
+        for (long i = 0; i < nefc; i++) {
+          long adr = d->efc_J_rowadr[i], nnz = d->efc_J_rownnz[i];
+          if (adr < 0 || nnz <= 0 || adr + nnz > nJ) continue;
+          addSeg(fj, d->efc_J + adr, 8 * (size_t)nnz); fj->count += nnz;
+          if (fc && d->efc_J_colind) { addSeg(fc, d->efc_J_colind + adr, 4 * (size_t)nnz); fc->count += nnz; }
+        }
+      }
+    }
+  }
   // model-level validity flags (read-only): sparse Jacobian in use, actuation enabled
   static unsigned char mflag[2];
   mflag[0] = (unsigned char)mj_isSparse(m);
